@@ -180,7 +180,7 @@ pub(crate) fn isolated(req: &json::JsonValue, f: fn(&json::JsonValue) -> json::J
 mod ops;
 
 fn main() {
-    panic::set_hook(Box::new(|_| {}));
+    if std::env::var_os("VERIF_DRIVER_PANIC_MSG").is_none() { panic::set_hook(Box::new(|_| {})); }
     let stdin = std::io::stdin(); let stdout = std::io::stdout();
     for line in stdin.lock().lines() {
         let line = match line { Ok(l) => l, Err(_) => break };
